@@ -12,8 +12,8 @@
 #ifndef XML_CURSOR_CONTRACTS_H
 #define XML_CURSOR_CONTRACTS_H
 /* ghosts (besides GS/GSC of iora_xml.h): GLEN = length of the C-string argument of matchString/matchWordCaseInsensitive;
- * GSC1..3 = the input bytes behind GS (readUntil compares up to 4 bytes); each is DEFINED by the precondition that uses it */
-char GSC1; char GSC2; char GSC3;
+ * GSC1, GSC2 = the input bytes behind GS (readUntil compares 3 bytes); each is DEFINED by the precondition that uses it */
+char GSC1; char GSC2;
 /* matchString/matchWordCaseInsensitive: GWC = word byte at the arbitrary index GK, GIC = input byte at cursor+GK.
  * Both DEFINED by the precondition of the proof that uses them. */
 #ifdef XML_GHOST_INLINE
@@ -42,16 +42,13 @@ size_t GLEN; char GWC; char GIC;
 /* word boundary demanded by matchWordCaseInsensitive: a byte is present at k and it is white space, '>' or '[' */
 #define XML_BOUNDARY(slf, k) ((k) < (slf)->_input.n && (XML_IS_SPACE(XML_AT(slf, k)) || XML_AT(slf, k) == (char)62 || XML_AT(slf, k) == (char)91))
 
-/* the string_view E (1..4 bytes) occurs in the input at position k */
-#define XML_SEQ_AT(slf, k, E) ((k) <= (slf)->_input.n && (E).n <= (slf)->_input.n - (k) && ((E).n < 1 || XML_AT(slf, k) == (E).p[0]) \
-  && ((E).n < 2 || XML_AT(slf, (k) + 1) == (E).p[1]) && ((E).n < 3 || XML_AT(slf, (k) + 2) == (E).p[2]) && ((E).n < 4 || XML_AT(slf, (k) + 3) == (E).p[3]))
-
-
+/* the 3-byte string_view E (readUntil REQUIRES endSeq.size() == 3: "-->" and "]]>") occurs in the input at position k. The three byte
+ * comparisons are combined with the non-short-circuit & behind the range guard (chained && around dereferences multiplies the formula) */
+#define XML_SEQ_AT(slf, k, E) ((k) <= (slf)->_input.n && (E).n <= (slf)->_input.n - (k) \
+  && ((XML_AT(slf, k) == (E).p[0]) & (XML_AT(slf, (k) + 1) == (E).p[1]) & (XML_AT(slf, (k) + 2) == (E).p[2])))
 /* the same at the ghost position GS, in terms of the ghost bytes */
-#define XML_SEQ_GS(slf, E) (GS <= (slf)->_input.n && (E).n <= (slf)->_input.n - GS && ((E).n < 1 || GSC == (E).p[0]) \
-  && ((E).n < 2 || GSC1 == (E).p[1]) && ((E).n < 3 || GSC2 == (E).p[2]) && ((E).n < 4 || GSC3 == (E).p[3]))
-#define XML_GS_TAIL(slf) (GS < (slf)->_input.n ==> ((GS + 1 < (slf)->_input.n ==> GSC1 == XML_AT(slf, GS + 1)) && (GS + 2 < (slf)->_input.n ==> GSC2 == XML_AT(slf, GS + 2)) \
-  && (GS + 3 < (slf)->_input.n ==> GSC3 == XML_AT(slf, GS + 3))))
+#define XML_SEQ_GS(slf, E) (GS <= (slf)->_input.n && (E).n <= (slf)->_input.n - GS && ((GSC == (E).p[0]) & (GSC1 == (E).p[1]) & (GSC2 == (E).p[2])))
+#define XML_GS_TAIL(slf) (GS < (slf)->_input.n ==> ((GS + 1 < (slf)->_input.n ==> GSC1 == XML_AT(slf, GS + 1)) && (GS + 2 < (slf)->_input.n ==> GSC2 == XML_AT(slf, GS + 2))))
 
 #define OC __CPROVER_old(self->_cur)
 #define RV __CPROVER_return_value
@@ -144,9 +141,13 @@ size_t GLEN; char GWC; char GIC;
   __CPROVER_assigns(self->_cur, self->_line, self->_col, *startOut, *lenOut) POST ;
 /* U1 cursor; U5a not found => nothing consumed */
 #define UNTIL_SAFE ENS(XML_CUR_INV(self) && self->_cur >= OC) ENS(!RV ==> self->_cur == OC)
-/* U2 slice containment: (start,len) lies inside the input and ends where the terminator begins; U3 cursor right behind the terminator */
-#define UNTIL_SLICE ENS(RV ==> (*startOut == OC && *lenOut <= self->_input.n - OC && XML_SEQ_AT(self, OC + *lenOut, endSeq))) \
+/* U2 slice containment: (start,len) lies inside the input and leaves room for the terminator; U3 cursor right behind the terminator
+ * (pure range facts: this is all the callers readComment/readCData need) */
+#define UNTIL_RANGE ENS(RV ==> (*startOut == OC && *lenOut <= self->_input.n - OC && endSeq.n <= self->_input.n - OC - *lenOut)) \
                     ENS(RV ==> self->_cur == OC + *lenOut + endSeq.n)
+/* U2b the reported content ends exactly where the terminator begins */
+#define UNTIL_TERM ENS(RV ==> XML_SEQ_AT(self, OC + *lenOut, endSeq))
+#define UNTIL_SLICE UNTIL_RANGE UNTIL_TERM
 /* U4 FIRST occurrence: the reported content does not contain the terminator; U5b false only if the terminator does not occur at all */
 #define UNTIL_FIRST ENS((RV && GS >= OC && GS < OC + *lenOut) ==> !XML_SEQ_GS(self, endSeq)) \
                     ENS((!RV && GS >= OC && GS < self->_input.n) ==> !XML_SEQ_GS(self, endSeq))
